@@ -462,3 +462,25 @@ LEVEL_TEXT = ("Deductive coverage postcondition on the real combination generato
               "arithmetic lemma for all sizes; extraction of examples from the document is not decided here.")
 LEVEL_NOTE = "Trusted: itertools cycle/islice (E5), fill-in generation (E1/E2), pyvc semantics (E9)."
 TECHNIQUE = "contract-based deductive verification: AST->z3 VC generation on the real generators (pyvc) with symbolic example values; arithmetic lemma by z3"
+
+
+# ------------------------------------------------------------------------------------------------- find_invalid_headers: an explicit example is reported as unusable exactly for the headers that cannot be sent
+VAL = "schemathesis.core.validation:"
+R.contract(VAL + "is_latin_1_encodable", args={"value": Opq("Any")}, returns=Bool, pure=True, trusted=True, note="str.encode('latin-1') succeeds (codec: E5)")
+R.contract(VAL + "has_invalid_characters", args={"name": Opq("Any"), "value": Opq("Any")}, returns=Bool, pure=True, trusted=True, note="requests.utils.check_header_validity + control characters (E4)")
+R.alias("latin1", VAL + "is_latin_1_encodable")
+R.alias("bad_chars", VAL + "has_invalid_characters")
+R.contract(
+    "schemathesis.generation.hypothesis.builder:find_invalid_headers",
+    variant="definition",
+    prop="C17",
+    args={"headers": KeyedDict(Str, Str, sizes=(0, 1, 2))},
+    raises=[],
+    ensures={
+        # an example header is sent verbatim unless it CANNOT be sent: exactly the unsendable ones are reported (and then the example is reported, not silently altered)
+        "exactly_the_headers_that_cannot_be_sent": "all(iff(any(r[0] == k and r[1] == headers[k] for r in result), (not latin1(headers[k])) or bad_chars(k, headers[k])) for k in headers) and "
+                                                   "all(r[0] in headers for r in result) and length(result) <= length(headers)",
+    },
+    bounded_note="up to 2 headers",
+    replayable=False,
+)
